@@ -188,6 +188,9 @@ impl<S: USet> Eng<S> {
         *self.stats.entry(k.to_string()).or_insert(0) += 1;
     }
     pub fn fail(&mut self, tags: &str, what: String) {
+        // a typed wrapper that answers differently from the ideal set of T also fails C03 ("behave as an ideal set of T")
+        let functional = ["C04", "C05", "C08", "C09", "C13"].iter().any(|t| tags.contains(t));
+        let tags = if S::TYPED && functional && !tags.contains("C03") { format!("{},C03", tags) } else { tags.to_string() };
         let msg = format!("ORACLE-FAIL props={} type={} hist={} step={} {}", tags, S::NAME, self.hist, self.step, what);
         eprintln!("{}", msg);
         self.fails.push(msg);
@@ -944,7 +947,12 @@ impl<S: USet> Eng<S> {
                 Some((_, cap, bits, a)) if *cap > 0 => {
                     let x = a[self.rng.below(*cap as u64) as usize];
                     if *bits > 0 && *bits < w {
-                        ((x >> bits).wrapping_add(*cap as u64)).wrapping_mul(*bits).wrapping_add(self.rng.below(*bits))
+                        match self.rng.below(4) {
+                            // the bucket key equal to the capacity: its home slot wraps to 0 although it is the largest key
+                            0 => (*cap as u64).wrapping_mul(*bits),
+                            1 => (*cap as u64).wrapping_mul(*bits).wrapping_sub(1),
+                            _ => ((x >> bits).wrapping_add(*cap as u64)).wrapping_mul(*bits).wrapping_add(self.rng.below(*bits)),
+                        }
                     } else {
                         x.wrapping_add(*cap as u64)
                     }
